@@ -42,6 +42,12 @@ pub fn base_history(r: &mut Sm, idx: usize) -> History {
     let (h1, h2) = (*r.pick(&hosts), *r.pick(&hosts));
     let mut p1 = gen_problem(r, &spec, h1);
     let mut p2 = gen_problem(r, &spec, h2);
+    if h1 == Hostility::InvalidStart && r.bool(0.3) {
+        p1.put_goal_on_start();
+    }
+    if h2 == Hostility::InvalidStart && r.bool(0.3) {
+        p2.put_goal_on_start();
+    }
     if planner == PKind::Prm {
         p1.goal.radius *= 2.5;
         p2.goal.radius *= 2.5;
